@@ -33,7 +33,7 @@ def eval_codes(ctx, cases, tag=""):
             logs.append(ev["log"])
             continue
         for v in ev["bad"]:
-            codes[s + v // 8] = v % 8
+            codes[s + v // 16] = v % 16
     return ok, codes, "\n".join(logs)
 
 
@@ -70,7 +70,7 @@ def run(ctx):
     ok, codes, log = eval_codes(ctx, [c["coq"] for c in cases])
     if not ok:
         broken.append("checker evaluation failed: " + log[-1500:])
-    uncert = sorted(i for i, c in codes.items() if c & 3)
+    uncert = sorted(i for i, c in codes.items() if c & 11)
     sembad = sorted(i for i, c in codes.items() if c & 4)
     for i in sembad[:10]:
         broken.append("correspondence: Model/Regex.v's leftmost-longest match differs from Go's engine on pattern %s"
@@ -93,7 +93,7 @@ def run(ctx):
                 found.add((r.get("replay") or {}).get("pattern"))
         for i in uncert[:20]:
             p = cases[i]["sample"]["pattern"]
-            kind = "+".join(k for b, k in ((1, "print/parse round trip"), (2, "OptimizeRegexp")) if codes[i] & b)
+            kind = "+".join(k for b, k in ((1, "print/parse round trip"), (2, "OptimizeRegexp"), (8, "print/parse round trip of the optimised regexp")) if codes[i] & b)
             broken.append("checker cannot certify language preservation of %s for pattern %s (printed %s, optimised %s)%s"
                           % (kind, json.dumps(p), json.dumps(cases[i]["sample"].get("printed")),
                              json.dumps(cases[i]["sample"].get("optimised")),
@@ -108,13 +108,14 @@ def run(ctx):
         disagreements_checked=hunted,
         certified_print=len(cases) - sum(1 for c in codes.values() if c & 1) if ok else 0,
         certified_optimize=len(cases) - sum(1 for c in codes.values() if c & 2) if ok else 0,
+        certified_print_of_optimized=len(cases) - sum(1 for c in codes.values() if c & 8) if ok else 0,
         evaluations=len(cases),
         distinct_nontrivial=vf.distinct_nontrivial(cases),
         rule="patterns: a fixed list of 39 + a random generator over the query syntax (literal runs incl. meta, non-printable, non-ASCII and "
              "multi-member fold-orbit runes; classes incl. negated/Perl/POSIX/Unicode; any; anchors; flag groups i/s/m/U; captures, named "
              "captures; * + ? {n} {n,} {n,m} and lazy/stacked forms; concatenation; alternation with shared prefixes and empty branches), "
              "kept when syntax.Parse accepts them; distinct by pattern text; non-trivial = the AST uses >= 3 construct classes or "
-             "OptimizeRegexp changes the AST. Each program = (a0, a1, a2) triple certified by norm equality under vm_compute; the Go oracle "
+             "OptimizeRegexp changes the AST. Each program = (a0, a1, a2, a3 = Parse(RegexpString a2)) certified by three norm equalities under vm_compute; the Go oracle "
              "additionally enumerates all subjects of <= 3 runes over <= 6 runes drawn from the pattern (+20 longer random ones).",
         samples=[c.get("sample") for c in cases[:3]],
         traces_validated_against_impl=len(cases) - len(sembad) if ok else 0,
